@@ -111,6 +111,8 @@ def check_strategy(ck, name, st, ev, regime, wit):
         ck.ratio("strategy", f"Adaptive/{tag}", abs(a["damping"] - want), 1e-12 * abs(want), entry, "adaptive_damping_not_as_documented",
                  dict(wit, quality=q, before=b, after=a, want=want))
         ck.check(st.strategy.min <= a["damping"] <= st.strategy.max, "strategy", "Adaptive/bounds", entry, "damping_outside_min_max", dict(wit, after=a))
+        if a["damping"] in (st.strategy.min, st.strategy.max):
+            ck.mark("strategy/Adaptive/bound_binds")
     else:
         radius = 1.0 / b["damping"]
         if q > c["high"]:
@@ -128,6 +130,8 @@ def check_strategy(ck, name, st, ev, regime, wit):
                  dict(wit, quality=q, before=b, after=a, want_down=d_want))
         ck.ratio("strategy", f"TrustRegion/{tag}", abs(a["damping"] - 1.0 / a["radius"]), 1e-12 * abs(a["damping"]), entry, "damping_is_not_inverse_radius", dict(wit, after=a))
         ck.check(lo <= a["radius"] <= hi, "strategy", "TrustRegion/bounds", entry, "radius_outside_min_max", dict(wit, after=a))
+        if a["radius"] in (lo, hi):
+            ck.mark("strategy/TrustRegion/bound_binds")
 
 
 def max_diff(a, b):
@@ -313,7 +317,7 @@ def run(ck):
         run_history(ck, rng, (ck.shard, hid), spec, cfg, nsteps=int(rng.integers(2, 6)), wall=True)
     # ---- fault enumeration: the solver raises at the j-th solve of the run
     swept = 0
-    for i in range(3 if thorough else 1):
+    for i in range(4 if thorough else 2):
         hid += 1
         seed = ck.subseed(("fault", i))
         def fresh():
@@ -336,7 +340,7 @@ def run(ck):
     ck.require("faults/swept", "protocol/solver_raised", "increasing_trials/k=0", "increasing_trials/0<k<reject", "increasing_trials/k=reject",
                "increasing_trials/k=reject+1", "history/GN", "history/LM",
                "strategy/Adaptive/very_successful", "strategy/Adaptive/unsuccessful", "strategy/TrustRegion/very_successful",
-               "strategy/TrustRegion/unsuccessful")
+               "strategy/TrustRegion/unsuccessful", "strategy/Adaptive/bound_binds", "strategy/TrustRegion/bound_binds")
     ck.floor("protocol", 30)
     ck.floor("restore", 10)
     ck.floor("strategy", 20)
